@@ -41,7 +41,7 @@ import random
 from typing import Any, Iterator
 
 SHAPES = ('single:A', 'single:B', 'blockdiag', 'blockdict', 'method:B', 'expr:AB', 'expr:A2', 'comp:A', 'neg:B', 'nested')
-MODES = ('eager', 'jit', 'fjit')
+MODES = ('eager', 'jit', 'fjit', 'jarg')
 APPLY_FAULTS = (None, 'seam-mem', 'seam-rt', 'stdout')
 ROUNDTRIPS = ('flatten', 'reduce', 'compose-reduce', 'pair-reduce')
 SLEEPS = (0, 0, 0.001, 0.01, 0.5, 1, 10, 60)
@@ -367,7 +367,7 @@ class _Gen:
             shapes = list(SHAPES) if heavy else list(SHAPES[:-1])
             return ['CREATE', rng.choice(shapes)], 1
         if kind == 'APPLY':
-            modes = ['eager'] * 4 + (['jit', 'jit', 'fjit', 'fjit', 'fjit'] if sw['jit'] else [])
+            modes = ['eager'] * 4 + (['jit', 'jit', 'fjit', 'fjit', 'jarg', 'jarg'] if sw['jit'] else [])
             fault = None
             roll = rng.random()
             if 'seam' in self.faults and roll < 0.12:
